@@ -9,7 +9,7 @@ import unitlib as U
 from common import sx, rng_for
 
 ID = 'C04'
-LEAN_MODULES = ['Cellml.Expr.InferLemmas', 'Cellml.Props.C04', 'Cellml.Props.C04Denotes', 'Cellml.Tie.InferCheck', 'Cellml.Tie.Infer']
+LEAN_MODULES = ['Cellml.Expr.InferLemmas', 'Cellml.Props.C04', 'Cellml.Props.C04Denotes', 'Cellml.Tie.InferCheck', 'Cellml.Tie.Infer', 'Cellml.Tie.InferNary', 'Cellml.Props.C04Gen']
 N = {'quick': 60, 'thorough': 1600}
 PER_CTX = 25
 RULE = ('random unit families (clusters of equal dimension and different scale) with 4-7 variables; per family %d '
